@@ -50,7 +50,8 @@ DIST_INC = ["/verif/engine/simmpi", "/repo/libdist/include", "/repo/libgluon/inc
 
 DAPPS = {1: ("bfs_push", "lonestar/analytics/distributed/bfs/bfs_push.cpp"), 2: ("bfs_pull", "lonestar/analytics/distributed/bfs/bfs_pull.cpp"),
          3: ("sssp_push", "lonestar/analytics/distributed/sssp/sssp_push.cpp"), 4: ("sssp_pull", "lonestar/analytics/distributed/sssp/sssp_pull.cpp"),
-         5: ("cc_push", "lonestar/analytics/distributed/connected-components/cc_push.cpp"), 6: ("cc_pull", "lonestar/analytics/distributed/connected-components/cc_pull.cpp")}
+         5: ("cc_push", "lonestar/analytics/distributed/connected-components/cc_push.cpp"), 6: ("cc_pull", "lonestar/analytics/distributed/connected-components/cc_pull.cpp"),
+         7: ("kcore_push", "lonestar/analytics/distributed/k-core/kcore_push.cpp"), 8: ("kcore_pull", "lonestar/analytics/distributed/k-core/kcore_pull.cpp")}
 
 
 def dapp_jobs(ids, variant="n"):
@@ -218,17 +219,17 @@ PROPS = {
                    "pbbs/rmat/metis/totem/neo4j/bsml/svmlight/petsc/nodelist formats, the partitioning, tree, degree-sorting and low-degree conversions, graph-convert-huge, graph-remap, dist-graph-convert. BufferedGraph is exercised for version 1 only (documented limit).",
         **tiers(15000, 120, 300000, 1500)),
     "C20": dict(
-        jobs=[dict(j, weight=j["weight"] * 60) for j in app_jobs([1, 2, 3, 4, 5, 6, 7])] + dapp_jobs([1, 2, 3, 4, 5, 6]),
+        jobs=[dict(j, weight=j["weight"] * 60) for j in app_jobs([1, 2, 3, 4, 5, 6, 7])] + dapp_jobs([1, 2, 3, 4, 5, 6, 7, 8]),
         components=comp(extra_real=["the unmodified application sources (their own main(), renamed), liblonestar BoilerPlate"], extra_stub=["LLVM command-line library runs uninstrumented", "MPI library (simulated), hosts = forked processes on one shared scheduler (distributed applications)"]),
         expected_probes=["app_runs", "dist_app_runs"],
         design_ref="3.20",
         level_text="Shared memory: the real Lonestar executables (bfs, sssp, connected-components, k-core, triangle-counting, independent-set, Boruvka) run under the simulator with every -algo variant they offer, "
                    "1-16 threads and synthetic topologies, on generated small graphs (disconnected, hubs with degrees around the edge-tile sizes, zero/large weights, distinct-weight dense graphs, parallel edges and self loops where the application accepts them) written by the harness writer. "
                    "Oracle: the printed summary compared with independent references in the driver (Dijkstra/BFS, union-find, peeling, brute-force triangles, Kruskal, enumeration of maximal independent sets). "
-                   "Distributed: the real D-Galois bfs_push, bfs_pull, sssp_push, sssp_pull, cc_push, cc_pull (their own main(), CuSP partitioning, Gluon sync, buffered network, simulated MPI) on 1-4 simulated hosts x 1-3 threads, "
+                   "Distributed: the real D-Galois bfs_push, bfs_pull, sssp_push, sssp_pull, cc_push, cc_pull, kcore_push, kcore_pull (their own main(), CuSP partitioning, Gluon sync, buffered network, simulated MPI) on 1-4 simulated hosts x 1-3 threads, "
                    "all eleven partitioning policies, bulk-synchronous and bulk-asynchronous execution, under message delay / probe-miss / lazy-test / host-stall faults; every host writes its masters' values with the application's own -output option "
-                   "and the union is compared node by node with Dijkstra / union-find references (about 1.5 % of the runs of a batch; they are two orders of magnitude slower).",
-        level_note="Sampling over seeds and schedules. Not run: pagerank, matching, preflowpush, betweenness centrality, and the other distributed applications (k-core, pagerank, triangle counting, matrix completion). "
+                   "and the union is compared node by node with Dijkstra / union-find / peeling references (about 1.5 % of the runs of a batch; they are two orders of magnitude slower).",
+        level_note="Sampling over seeds and schedules. Not run: pagerank, matching, preflowpush, betweenness centrality, and the other distributed applications (pagerank, triangle counting, matrix completion, betweenness centrality). "
                    "The distributed applications are run without the statistics merge of DistMemSys's destructor (DESIGN section 9, last row). The applications' own verify steps stay on but are not the oracle.",
         **tiers(16000, 170, 400000, 2400, run_timeout_s=120)),
     "C17": dict(
